@@ -1,7 +1,7 @@
 use bgpfu::RpslEvaluator;
 use ip::traits::PrefixSet;
 
-use super::{Candidate, Evaluated, Policies};
+use super::{Candidate, Evaluated, FilterExpr, Policies};
 
 pub(crate) trait Evaluate {
     type Evaluated;
@@ -36,19 +36,24 @@ impl Evaluate for Candidate {
             %self.filter_expr,
             "trying to evaluate filter expression"
         );
-        let ranges = evaluator
-            .evaluate(self.filter_expr.clone())
-            .map_err(|err| {
-                tracing::error!(
-                    "failed to evaluate filter expression {}: {err:#}",
-                    self.filter_expr,
-                );
-            })
-            .map(|set| {
-                let (ipv4, ipv6) = set.as_partitions();
-                (ipv4.ranges().collect(), ipv6.ranges().collect())
-            })
-            .ok();
+        let ranges = match &self.filter_expr {
+            FilterExpr::Malformed(raw) => {
+                tracing::error!("not evaluating malformed filter expression '{raw}'");
+                None
+            }
+            FilterExpr::Parsed(filter_expr) => evaluator
+                .evaluate(filter_expr.clone())
+                .map_err(|err| {
+                    tracing::error!(
+                        "failed to evaluate filter expression {filter_expr}: {err:#}",
+                    );
+                })
+                .map(|set| {
+                    let (ipv4, ipv6) = set.as_partitions();
+                    (ipv4.ranges().collect(), ipv6.ranges().collect())
+                })
+                .ok(),
+        };
         Evaluated {
             filter_expr: self.filter_expr,
             ranges,
